@@ -133,3 +133,16 @@ pub fn join<T: std::fmt::Display>(xs: impl IntoIterator<Item = T>) -> String {
     }
     s
 }
+
+/// FNV-1a over a list of numbers, each fed as 8 little-endian bytes (same function in LMV/Driver/Util.lean)
+pub fn fnv_nats(xs: impl IntoIterator<Item = usize>) -> u64 {
+    let mut h: u64 = 0xcbf29ce484222325;
+    for x in xs {
+        let x = x as u64;
+        for k in 0..8 {
+            h ^= (x >> (8 * k)) & 0xff;
+            h = h.wrapping_mul(0x100000001b3);
+        }
+    }
+    h
+}
